@@ -183,8 +183,10 @@ fn case(t0: &mut Tape, w: &Worker) -> CaseResult {
     // report (check modes with data not on stdout print it)
     if let SMode::Check(_) = mode {
         let rows = cli::parse_report(&o.stdout_str());
-        if let Some(v) = cli::report_value(&rows, "Total RDHs") {
-            chk("report:Total RDHs", json!(v), json!(rdhs.len().to_string()));
+        match cli::report_value(&rows, "Total RDHs") {
+            Some(v) => chk("report:Total RDHs", json!(v), json!(rdhs.len().to_string())),
+            // a check that visited at least one RDH prints its report (also for a single packet)
+            None => chk("report:present", json!(false), json!(true)),
         }
         if let Some(v) = cli::report_value(&rows, "Total Errors") {
             chk("report:Total Errors", json!(v), json!((listed.len() + custom).to_string()));
